@@ -601,6 +601,10 @@ func c07(w *core.World, r *core.Report) {
 	}
 	r.Rule("R07.6", "the replay's start offset is the cache reader's reported position, and that is the requested offset (log reader) or the snapshot's own offset", 3)
 	ruleReplayStartOffset(w, r)
+	r.Rule("R17.10", "a running output adopts a new replication id only after its checkpoint was moved there (shared with C17)", 1)
+	ruleRunIdAdoptedAfterMove(w, r)
+	r.Rule("R17.11", "a failed look-up of the stored position surfaces as an error, never as 'nothing stored' (shared with C17)", 3)
+	ruleLookupErrorsSurface(w, r)
 	r.Rule("R17.3", "stale-checkpoint collection never removes the newest entry of an id a source still reports: the stored position would fall back to an older one (shared with C17)", 4)
 	ruleStaleGC(w, r)
 	r.Rule("R12.1", "the offsets stored are command boundaries only if the decoder counts every byte it consumes (shared with C12)", 4)
@@ -1278,6 +1282,8 @@ func c09(w *core.World, r *core.Report) {
 	if c != nil {
 		ruleBatchOrder(w, r, c, true)
 	}
+	r.Rule("R09.8", "transactional replay is the default in every replay mode: an omitted replayTransaction is normalised to true, unconditionally", 1)
+	ruleTxnDefault(w, r)
 	r.Rule("R09.7", "the transaction mode the sender runs in is the output's CanTransaction, and nothing narrower", 1)
 	if c != nil {
 		ruleTxnModeWiring(w, r, c)
@@ -1922,5 +1928,61 @@ func ruleTxnModeWiring(w *core.World, r *core.Report, c *senderCtx) {
 	}
 	if n == 0 {
 		r.Fail(senderName+"/txn-mode-is-CanTransaction", c.main.Pos(), "no call of the sender found")
+	}
+}
+
+
+// ---------------------------------------------------------------- R09.8 transactional replay is the default
+
+// ruleTxnDefault: the promise "a source transaction reaches the target as one
+// transaction" is made for the default configuration too: replayTransaction is
+// documented as default true. The normalisation of the configuration may write
+// the field only when the operator left it out, and then only the constant true
+// — a default that depends on the replay mode (or on anything else) silently
+// switches transactional replay off in some configurations, and a source
+// transaction is then sent as bare pipelines.
+func ruleTxnDefault(w *core.World, r *core.Report) {
+	f := fn(w, r, "(*config.ReplayConfig).fix")
+	if f == nil {
+		return
+	}
+	n := 0
+	for _, g := range reachableFuncs(f) {
+		if g != f && !(core.Transparent != nil && core.Transparent(g)) {
+			continue
+		}
+		for _, in := range core.OwnInstrs(g) {
+			st, ok := in.(*ssa.Store)
+			if !ok {
+				continue
+			}
+			fa, ok := st.Addr.(*ssa.FieldAddr)
+			if !ok || core.FieldName(fa) != "ReplayTransaction" || !strings.HasSuffix(core.TypeName(fa.X.Type()), "ReplayConfig") {
+				continue
+			}
+			n++
+			// the pointer stored: a fresh bool that holds the constant true
+			okVal := false
+			if cell, isA := core.Unwrap(st.Val).(*ssa.Alloc); isA {
+				sts := core.CellStores(cell)
+				okVal = len(sts) > 0
+				for _, cs := range sts {
+					if b, isB := core.ConstBool(cs.Val); !isB || !b {
+						okVal = false
+					}
+				}
+			}
+			// only when the operator gave none
+			unset := false
+			for _, fct := range core.FactsAt(st.Block()) {
+				if c, ok := core.FactCmp(fct); ok && c.Op == token.EQL && core.IsNilConst(c.Y) && fieldNameOfLoad(core.Unwrap(c.X)) == "ReplayTransaction" {
+					unset = true
+				}
+			}
+			r.Check(okVal && unset, shortName(core.FuncName(g))+"/replayTransaction-default", st.Pos(), "replayTransaction may be written by the normalisation only when it was omitted (%v) and only with the constant true (%v): any other default replays source transactions piecemeal in the configurations it switches off", unset, okVal)
+		}
+	}
+	if n == 0 {
+		r.Fail("ReplayConfig.fix/replayTransaction-default", f.Pos(), "an omitted replayTransaction is not normalised: the field stays nil")
 	}
 }
